@@ -94,38 +94,50 @@ Proof.
   pose proof (wag_disc_frames run (s_rdisc s)). lia.
 Qed.
 
+Lemma destroy_next_w s ag s' ag' :
+  destroy_next s ag = (s', ag') -> (measure s' ag' < measure s (FDestroy :: ag))%nat.
+Proof.
+  unfold destroy_next. intros H. destruct (s_queue s) as [|[id cb] q] eqn:E.
+  - inversion H; subst. unfold measure; cbn. lia.
+  - inversion H; subst. unfold measure, wst; cbn. rewrite E. cbn. rewrite wag_app, wag_map_fop. cbn. lia.
+Qed.
+
 Lemma step_decreases s f ag s' ag' :
   step s f ag = (s', ag') -> (measure s' ag' < measure s (f :: ag))%nat.
 Proof.
-  destruct f as [o| | |]; cbn [step]; intros H.
+  destruct f as [o| | | |]; cbn [step]; intros H.
   - destruct o as [cb|full cb| | |r|]; cbn [do_op] in H.
     + destruct (s_max s <=? len (s_queue s)).
       * inversion H; subst. unfold measure, wst; cbn. rewrite wag_app, wag_map_fop.
         fold (wops cb). lia.
       * apply take_next_w in H. unfold measure, wst in *; cbn in *. rewrite wq_app in H. cbn in H.
         fold (wops cb). lia.
-    + destruct (s_discov s).
+    + destruct (s_discov s && negb (h_destroying s)).
       * apply take_next_w in H. unfold measure, wst in *; cbn in *. rewrite wpd_app in H. cbn in H.
         fold (wops cb). lia.
       * inversion H; subst. unfold measure; cbn. lia.
     + inversion H; subst. unfold measure, wst; cbn. lia.
     + apply take_next_w in H. unfold measure, wst in *; cbn in *. lia.
-    + destruct (m_out s) eqn:E.
+    + destruct (h_destroying s); [inversion H; subst; unfold measure; cbn; lia|].
+      destruct (m_out s) eqn:E.
       * inversion H; subst. unfold measure; cbn. lia.
       * apply handle_w in H. unfold measure, wst in *; cbn in *. lia.
-    + destruct (m_dout s) eqn:E.
+    + destruct (h_destroying s); [inversion H; subst; unfold measure; cbn; lia|].
+      destruct (m_dout s) eqn:E.
       * inversion H; subst. unfold measure; cbn. lia.
       * apply disc_complete_w in H. unfold measure, wst in *; cbn in *. lia.
   - apply take_next_w in H. unfold measure in *; cbn in *. lia.
   - inversion H; subst. unfold measure, wst; cbn. lia.
   - apply take_next_w in H. unfold measure, wst in *; cbn in *. lia.
+  - destruct (h_destroying s); [apply destroy_next_w; exact H|].
+    inversion H; subst. unfold measure; cbn. lia.
 Qed.
 
 Lemma run_enough : forall fuel s ag, (measure s ag <= fuel)%nat -> run fuel s ag <> None.
 Proof.
   induction fuel as [|k IH]; intros s ag Hm.
   - destruct ag as [|f ag]; cbn; [discriminate|].
-    exfalso. unfold measure in Hm. cbn in Hm. destruct f as [[]| | |]; cbn in Hm; lia.
+    exfalso. unfold measure in Hm. cbn in Hm. destruct f as [[]| | | |]; cbn in Hm; lia.
   - destruct ag as [|f ag]; cbn [run]; [discriminate|].
     destruct (step s f ag) as [s' ag'] eqn:E. apply step_decreases in E. apply IH. lia.
 Qed.
